@@ -46,7 +46,7 @@ from ckl.parser import parse_script  # noqa: E402
 from ckl import values as V  # noqa: E402
 
 NAMES = ("a", "b", "s", "c")
-MEMBER = {1: "m", 2: "n", 3: "z"}
+MEMBER = {1: "m", 2: "n", 3: "z", 4: "_proto_"}
 CHARS = {1: "a", 2: "b", 3: "c", 4: "d", 5: "e"}
 MUTATOR_OPS = {"append", "append_ref", "append_all", "insert_at", "delete_at", "remove",
                "remove_member", "put", "put_ref", "set_elem", "set_elem_ref",
@@ -108,12 +108,12 @@ def render_cell(heap, cell, top=False):
     k, keys, items = heap[v - 1]
     if k == "list":
         return "[" + ", ".join(render_cell(heap, x) for x in items) + "]"
-    if k == "set":
+    if k in ("set", "rset"):
         return "<<" + pad_brackets(", ".join(render_cell(heap, x) for x in items)) + ">>"
     if k == "map":
         return "<<<" + pad_brackets(", ".join(f"{kk} => {render_cell(heap, x)}" for kk, x in zip(keys, items))) + ">>>"
-    if k == "obj":
-        return "<*" + ", ".join(f"{MEMBER[kk]}={render_cell(heap, x)}" for kk, x in zip(keys, items)) + "*>"
+    if k == "obj":          # string(obj) does not show the prototype link
+        return "<*" + ", ".join(f"{MEMBER[kk]}={render_cell(heap, x)}" for kk, x in zip(keys, items) if kk != 4) + "*>"
     if k == "str":
         s = "".join(CHARS[x[1]] for x in items)
         return s if top else "'" + s + "'"
@@ -302,7 +302,7 @@ def build_source(st):
         k, keys, items = heap[r - 1]
         if k == "list":
             lit = "lit_list()" if items == (("i", 1),) else "[" + ", ".join(cell(c) for c in items) + "]"
-        elif k == "set":
+        elif k in ("set", "rset"):
             lit = "<<" + ", ".join(cell(c) for c in items) + ">>"
         elif k == "map":
             lit = "<<<" + ", ".join(f"{kk} => {cell(c)}" for kk, c in zip(keys, items)) + ">>>"
